@@ -406,6 +406,7 @@ class TimeoutFamily(common.Family):
   """A starved get or put with `timeout` configured raises TimeoutError."""
   prop = 'C05'
   name = 'timeout'
+  max_steps = 1_000_000
 
   def gen(self, rng, tier):
     cfg = _base_cfg(rng, min_items=0, max_items=5)
@@ -473,6 +474,12 @@ class TimeoutFamily(common.Family):
         return
       _consumer(q, cfg, c, got, ends, t_end)
 
+    # Bounded liveness: once the peer has stalled nothing notifies the starved
+    # side any more, so its timeout must fire; 200 timeouts later it has not.
+    limit = 200 * tau + 1000.0
+    sim.invariants.append(
+        lambda: (f'starved side still blocked after {limit} simulated seconds '
+                 f'(timeout={tau})') if sim.now > limit else None)
     cs = [threading.Thread(target=consume, args=(c,), name=f'cons{c}')
           for c in range(C)]
     pt = threading.Thread(target=produce, name='prod0')
@@ -489,6 +496,11 @@ class TimeoutFamily(common.Family):
     dl = common.deadlock_violation(out)
     if dl:
       return [dl]
+    f = out.get('failure')
+    if f is not None and f.kind == 'invariant':
+      where = common.blocked_sig(f.detail.get('threads', []))
+      return [v('timeout', f"never-times-out:{cfg['side']}:{where}",
+                str(f) + ' ' + str(f.detail)[:500])]
     if out.get('failure') is not None:
       return []
     if 'error' in out:
